@@ -186,8 +186,9 @@ EvNode(nd, st, d, C) ==
            ELSE LET s2 == EvKids(nd, [st EXCEPT !.specs = TRUE], d + 1, C)
                    \* errors inside <specs> are ignored (a template may lack context)
                    \* - except an exceeded limit, which is final everywhere
+                   \* (<specs> opens no scope: what a loop inside it assigns stays assigned)
                 IN [s2 EXCEPT !.specs = FALSE, !.err = IF @ \in {"depth", "loop", "var"} THEN @ ELSE "-",
-                              !.sc = st.sc, !.unr = Append(st.unr, nd)]
+                              !.sc = IF s2.err = "-" THEN s2.sc ELSE st.sc, !.unr = Append(st.unr, nd)]
       [] nd.k = "reuse" ->
            IF nd.href \notin C.regs THEN [st EXCEPT !.err = "ref"]
            ELSE LET rn == [nd EXCEPT !.loc = Resolve(@, st.sc)]      \* the reuse element's own attributes: enclosing scope
